@@ -89,10 +89,27 @@ fn main() {
                 if ctx.over() {
                     break;
                 }
-                let n = if ctx.lite { ctx.rng.below(20) } else { *ctx.rng.pick(&[0usize, 1, 15, 16, 17, 31, 32, 33, 47, 48, 49, 63, 64, 65]) + if r % 3 == 0 { ctx.rng.below(5) } else { 0 } };
-                let x = rand_codes(&mut ctx.rng, a, n);
-                // y: random, or a subset of x (so that contains is true reasonably often)
-                let y: Vec<u8> = if r % 2 == 0 { x.iter().map(|c| c & ctx.rng.byte()).collect() } else { rand_codes(&mut ctx.rng, a, n) };
+                let longs = long_lengths(4);
+                let n = if ctx.lite { ctx.rng.below(20) } else if r % 12 == 11 { longs[(r / 12) % longs.len()] } else { *ctx.rng.pick(&[0usize, 1, 15, 16, 17, 31, 32, 33, 47, 48, 49, 63, 64, 65, 80, 96, 97, 128, 130]) + if r % 3 == 0 { ctx.rng.below(5) } else { 0 } };
+                // patterns: random, or a single repeated symbol (every position has the same spare bits)
+                let x = if r % 5 == 4 { vec![*ctx.rng.pick(&codes); n] } else { rand_codes(&mut ctx.rng, a, n) };
+                // y: a subset of x everywhere (contains true), a subset except at 1-4 offending positions
+                // (spaced by multiples of 16 symbols = one machine word, or randomly; equal or different
+                // stray bits), or fully random
+                let mut y: Vec<u8> = match r % 4 { 0 | 1 | 2 => x.iter().map(|c| c & ctx.rng.byte()).collect(), _ => rand_codes(&mut ctx.rng, a, n) };
+                if r % 4 >= 1 && r % 4 <= 2 && n > 0 {
+                    let k = 1 + ctx.rng.below(4);
+                    let first = ctx.rng.below(n);
+                    let stride = *ctx.rng.pick(&[16usize, 16, 32, 1, 7, 48]);
+                    let stray0 = 1u8 << ctx.rng.below(4);
+                    for j in 0..k {
+                        let pos = if r % 8 < 4 { (first + j * stride) % n } else { ctx.rng.below(n) };
+                        let stray = if ctx.rng.chance(2, 3) { stray0 } else { 1u8 << ctx.rng.below(4) };
+                        if x[pos] & stray == 0 {
+                            y[pos] |= stray; // a nucleotide the pattern does not allow at this position
+                        }
+                    }
+                }
                 let (p1, p2) = (ctx.rng.below(16), ctx.rng.below(16));
                 ops(ctx, &x, &y, p1, p2, "random");
                 cell!(ctx, "iupac/random/{}", len_class(4, n));
@@ -176,6 +193,6 @@ fn main() {
                 check!(ctx, codes_of::<Iupac>(&p.slice().to_comp()) == want, "SeqSlice::to_comp|iupac|not-memberwise".to_string(), "to_comp of {:?} wrong", a.text(&x));
             }
         });
-        ctx.note("rule", json!("all 256 ordered IUPAC symbol pairs, 20 per window, with the two operands at independent bit offsets (all 16 x 16 offset combinations): &a|&b, &a&&b in both operand orders, bit_or/bit_and on owned copies, owned|slice, operands unchanged, contains on slice and owned receivers; random equal-length pairs up to 4 words with subset-biased arguments; contains with every kind of length mismatch incl. all-N and empty patterns; SeqArray<N,W> receivers built from the packed model; Iupac::from(Dna) and member-wise complement for every code. Distinct = (x, y, pad1, pad2)."));
+        ctx.note("rule", json!("all 256 ordered IUPAC symbol pairs, 20 per window, with the two operands at independent bit offsets (all 16 x 16 offset combinations): &a|&b, &a&&b in both operand orders, bit_or/bit_and on owned copies, owned|slice, operands unchanged, contains on slice and owned receivers; random equal-length pairs up to 8 words (every 12th: 4..33 words) whose argument is a subset of the pattern everywhere, or everywhere except at 1-4 offending positions (spaced by whole machine words or randomly, with equal or different stray nucleotides), or random; contains with every kind of length mismatch incl. all-N and empty patterns; SeqArray<N,W> receivers built from the packed model; Iupac::from(Dna) and member-wise complement for every code. Distinct = (x, y, pad1, pad2)."));
     });
 }
